@@ -45,6 +45,10 @@ pub struct CbConfig {
     /// every kind of event listener is registered on the layer
     #[serde(default)]
     pub listeners: bool,
+    /// C04: the breaker is driven through the service returned by with_fallback() (a rejected
+    /// call gets the fallback's response instead of the OpenCircuit error; the machine is the same)
+    #[serde(default)]
+    pub via_fallback: bool,
 }
 
 #[derive(Clone, Debug, Serialize, Deserialize, PartialEq)]
@@ -95,7 +99,7 @@ pub fn config_strategy() -> BoxedStrategy<CbConfig> {
         prop_oneof![Just(20u64), 20u64..=200],
         prop_oneof![1 => Just(None), 1 => (5u64..=40, 0u8..=10).prop_map(Some)],
         any::<bool>(),
-        (prop_oneof![2 => Just(None), 1 => (0u8..=10).prop_map(Some)], prop_oneof![12 => Just(0u8), 1 => 1u8..=3], any::<bool>(), prop::bool::weighted(0.3)),
+        (prop_oneof![2 => Just(None), 1 => (0u8..=10).prop_map(Some)], prop_oneof![12 => Just(0u8), 1 => 1u8..=3], any::<bool>(), prop::bool::weighted(0.3), prop::bool::weighted(0.35)),
     )
         .prop_map(
             |(
@@ -108,7 +112,7 @@ pub fn config_strategy() -> BoxedStrategy<CbConfig> {
                 wait_ms,
                 slow,
                 custom_classifier,
-                (idle_slow_rate10, wait_huge, classifier_first, listeners),
+                (idle_slow_rate10, wait_huge, classifier_first, listeners, via_fallback),
             )| {
                 CbConfig {
                     time_based,
@@ -124,6 +128,7 @@ pub fn config_strategy() -> BoxedStrategy<CbConfig> {
                     wait_huge,
                     classifier_first,
                     listeners,
+                    via_fallback,
                 }
             },
         )
@@ -354,6 +359,56 @@ fn map_outcome(r: Result<Resp, CircuitBreakerError<SErr>>) -> Outcome {
     }
 }
 
+const FALLBACK_BASE: u64 = 8_000_000_000;
+
+/// Either service type of the breaker behind one interface (they share every control method).
+enum AnyCb<C> {
+    Plain(CircuitBreaker<Scripted, C>),
+    Fb(tower_resilience_circuitbreaker::CircuitBreakerWithFallback<Scripted, C, Req, Resp, SErr>),
+}
+
+macro_rules! both {
+    ($self:expr, $s:ident => $e:expr) => {
+        match $self {
+            AnyCb::Plain($s) => $e,
+            AnyCb::Fb($s) => $e,
+        }
+    };
+}
+
+impl<C> AnyCb<C>
+where
+    C: FailureClassifier<Resp, SErr> + Send + Sync + 'static,
+{
+    fn poll_ready(&mut self, cx: &mut std::task::Context<'_>) -> std::task::Poll<Result<(), CircuitBreakerError<SErr>>> {
+        both!(self, s => s.poll_ready(cx))
+    }
+    fn call(&mut self, req: Req) -> futures::future::BoxFuture<'static, Result<Resp, CircuitBreakerError<SErr>>> {
+        both!(self, s => Box::pin(s.call(req)))
+    }
+    async fn force_open(&self) {
+        both!(self, s => s.force_open().await)
+    }
+    async fn force_closed(&self) {
+        both!(self, s => s.force_closed().await)
+    }
+    async fn reset(&self) {
+        both!(self, s => s.reset().await)
+    }
+    async fn state(&self) -> CircuitState {
+        both!(self, s => s.state().await)
+    }
+    async fn metrics(&self) -> tower_resilience_circuitbreaker::CircuitMetrics {
+        both!(self, s => s.metrics().await)
+    }
+    fn state_sync(&self) -> CircuitState {
+        both!(self, s => s.state_sync())
+    }
+    fn is_open(&self) -> bool {
+        both!(self, s => s.is_open())
+    }
+}
+
 fn to_st(s: CircuitState) -> St {
     match s {
         CircuitState::Closed => St::Closed,
@@ -481,7 +536,19 @@ where
             _ => Step::err(dur, 7),
         }
     });
-    let mut cb = make(inner.clone());
+    let plain = make(inner.clone());
+    let mut cb = if cfg.via_fallback {
+        AnyCb::Fb(plain.with_fallback(|req: Req| -> futures::future::BoxFuture<'static, Result<Resp, SErr>> {
+            Box::pin(async move {
+                Ok(Resp {
+                    serial: FALLBACK_BASE + req.id as u64,
+                    req,
+                })
+            })
+        }))
+    } else {
+        AnyCb::Plain(plain)
+    };
     let mut worlds = World::initial();
     let mut v = Verdict {
         violation: None,
@@ -563,7 +630,10 @@ where
                     })
                 });
                 let ok_shape = match (&out, admitted) {
-                    (Some(Outcome::Layer(n)), false) => n == "OpenCircuit",
+                    (Some(Outcome::Layer(n)), false) => n == "OpenCircuit" && !cfg.via_fallback,
+                    (Some(Outcome::Ok { serial, req }), false) => {
+                        cfg.via_fallback && *serial == FALLBACK_BASE + i as u64 && req.id == i as u32
+                    }
                     (Some(Outcome::Ok { req, .. }), true) => req.id == i as u32 && *kind < 2,
                     (Some(Outcome::Inner { code, .. }), true) => {
                         (*kind == 2 && *code == 3) || (*kind == 3 && *code == 7)
@@ -724,6 +794,9 @@ pub fn report_of(case: &CbCase) -> Report {
     }
     if case.cfg.listeners {
         r.class("event_listeners_registered");
+    }
+    if case.cfg.via_fallback {
+        r.class("service_with_fallback");
     }
     if case.cfg.slow.is_some() {
         r.class("slow_detection_on");
